@@ -379,3 +379,61 @@ def entity_xml(e):
 def entities_xml(entities, valid_until=None, name=None, id=None, signature=''):
     return '<md:EntitiesDescriptor xmlns:md="%s"%s>%s%s</md:EntitiesDescriptor>' % (
         MD, _attrs([('validUntil', valid_until), ('Name', name), ('ID', id)]), signature, ''.join(entity_xml(e) for e in entities))
+
+
+# ------------------------------------------------------------------ requests
+def authn_request_xml(q):
+    out = ['<samlp:AuthnRequest xmlns:samlp="%s" xmlns:saml="%s"%s>' % (
+        SAMLP, SAML, _attrs([('ID', q['id']), ('Version', q.get('version', '2.0')), ('IssueInstant', q.get('issue_instant')),
+                             ('Destination', q.get('destination')), ('AssertionConsumerServiceURL', q.get('acs_url')),
+                             ('AssertionConsumerServiceIndex', q.get('acs_index')), ('ProtocolBinding', q.get('protocol_binding')),
+                             ('ForceAuthn', q.get('force_authn')), ('IsPassive', q.get('is_passive')), ('ProviderName', q.get('provider_name'))]))]
+    if q.get('issuer') is not None:
+        out.append('<saml:Issuer%s>%s</saml:Issuer>' % (_attrs([('Format', q.get('issuer_format', ENTITY))]), _esc(q['issuer'])))
+    if q.get('signature'):
+        out.append(q['signature'])
+    if q.get('extensions'):
+        out.append('<samlp:Extensions>%s</samlp:Extensions>' % q['extensions'])
+    if q.get('name_id_policy') is not None:
+        p = q['name_id_policy']
+        out.append('<samlp:NameIDPolicy%s/>' % _attrs([('Format', p.get('format')), ('AllowCreate', p.get('allow_create')), ('SPNameQualifier', p.get('sp_name_qualifier'))]))
+    out.append('</samlp:AuthnRequest>')
+    return ''.join(out)
+
+
+def logout_request_xml(q):
+    out = ['<samlp:LogoutRequest xmlns:samlp="%s" xmlns:saml="%s"%s>' % (
+        SAMLP, SAML, _attrs([('ID', q['id']), ('Version', q.get('version', '2.0')), ('IssueInstant', q.get('issue_instant')),
+                             ('Destination', q.get('destination')), ('Reason', q.get('reason')), ('NotOnOrAfter', q.get('not_on_or_after'))]))]
+    if q.get('issuer') is not None:
+        out.append('<saml:Issuer%s>%s</saml:Issuer>' % (_attrs([('Format', q.get('issuer_format', ENTITY))]), _esc(q['issuer'])))
+    if q.get('signature'):
+        out.append(q['signature'])
+    out.append(name_id_xml(q.get('name_id', {'text': 'subject-0001', 'format': TRANSIENT})))
+    for s in q.get('session_index', []):
+        out.append('<samlp:SessionIndex>%s</samlp:SessionIndex>' % _esc(s))
+    out.append('</samlp:LogoutRequest>')
+    return ''.join(out)
+
+
+def attribute_query_xml(q):
+    out = ['<samlp:AttributeQuery xmlns:samlp="%s" xmlns:saml="%s"%s>' % (
+        SAMLP, SAML, _attrs([('ID', q['id']), ('Version', q.get('version', '2.0')), ('IssueInstant', q.get('issue_instant')), ('Destination', q.get('destination'))]))]
+    if q.get('issuer') is not None:
+        out.append('<saml:Issuer%s>%s</saml:Issuer>' % (_attrs([('Format', q.get('issuer_format', ENTITY))]), _esc(q['issuer'])))
+    if q.get('signature'):
+        out.append(q['signature'])
+    out.append('<saml:Subject>%s</saml:Subject>' % name_id_xml(q.get('name_id', {'text': 'subject-0001', 'format': TRANSIENT})))
+    for at in q.get('attributes', []):
+        out.append('<saml:Attribute%s/>' % _attrs([('Name', at['name']), ('NameFormat', at.get('name_format')), ('FriendlyName', at.get('friendly_name'))]))
+    out.append('</samlp:AttributeQuery>')
+    return ''.join(out)
+
+
+def deflate_b64(xml):
+    import zlib
+    return base64.b64encode(zlib.compress(xml.encode('utf-8'))[2:-4]).decode('ascii')
+
+
+def soap_envelope(xml):
+    return '<soapenv:Envelope xmlns:soapenv="http://schemas.xmlsoap.org/soap/envelope/"><soapenv:Body>%s</soapenv:Body></soapenv:Envelope>' % xml
